@@ -116,14 +116,21 @@ def _gen_link(rng, prefix, budget, depth, max_depth, root, n_shared):
     link['ur'] = rng.random() < 0.65
   if kind == 'with':
     link['status'] = rng.choice(STATUSES)
+    if rng.random() < 0.2:
+      link['ctxref'] = rng.choice([2, 3])     # re-enter a context object captured at an ancestor
   if kind == 'internal':
     r = rng.random()
     if r < 0.5:
       link['ctx'] = 'fresh:' + rng.choice(STATUSES)
     elif r < 0.75 and n_shared:
       link['ctx'] = 'shared:%d' % rng.randrange(n_shared)
-    else:
+    elif r < 0.88:
       link['ctx'] = 'current'
+    else:
+      # a context captured earlier (at the entry of an ancestor node) and re-entered
+      # deeper in the tree, possibly with other regions in between - the documented
+      # use of internal convert from inside a disabled region
+      link['ctx'] = 'captured:%d' % rng.choice([2, 2, 3])
     link['by_default'] = rng.random() < 0.6
     link['ur'] = rng.random() < 0.5
   link['spec'] = _gen_node(rng, prefix, budget, depth + 1, max_depth, n_shared)
@@ -226,6 +233,7 @@ class ThreadState(object):
     self.pending = []       # stack of [link, parent_expect, depth] awaiting the child's enter
     self.pre = {}           # id(link) -> (ctx object, expect depth, pending depth)
     self.trace = []         # compact history for samples
+    self.captured = []      # context object current at the entry of each open node (parallel to expect)
 
 
 class Harness(object):
@@ -324,6 +332,7 @@ class Harness(object):
     else:
       exp = None
     st.expect.append(exp)
+    st.captured.append(self.cur_ctx(st))
     self.stats['max_region_depth'] = max(self.stats['max_region_depth'], len(st.expect))
     st.trace.append('>%s%s' % (spec['id'], '*' if gen else ''))
     self._check_status(st, spec, 'enter')
@@ -340,6 +349,8 @@ class Harness(object):
     self._check_status(st, spec, 'leave')
     st.trace.append('<%s' % spec['id'])
     st.expect.pop()
+    if st.captured:
+      st.captured.pop()
 
   def pick(self, link):
     return self.nodes[link['fn']]
@@ -371,6 +382,7 @@ class Harness(object):
   def _restore(self, st, link, how):
     c0, d_exp, d_pend = st.pre.pop(id(link))
     del st.expect[d_exp:]
+    del st.captured[d_exp:]
     del st.pending[d_pend:]
     c = self.cur_ctx(st)
     self.stats['restore_checks'] += 1
@@ -428,7 +440,12 @@ class Harness(object):
     if kind == 'unspec':
       return api.call_with_unspecified_conversion_status(fn)(spec)
     if kind == 'with':
-      ctx = ag_ctx.ControlStatusCtx(getattr(ag_ctx.Status, link['status']))
+      k = link.get('ctxref')
+      if k and len(st.captured) >= k:
+        ctx = st.captured[-k]
+        self.stats['captured_ctx_reentered'] = self.stats.get('captured_ctx_reentered', 0) + 1
+      else:
+        ctx = ag_ctx.ControlStatusCtx(getattr(ag_ctx.Status, link['status']))
       st.pending[-1].append(ctx)
       with ctx:
         return fn(spec)
@@ -450,6 +467,12 @@ class Harness(object):
   def _ctx_for(self, st, link):
     c = link['ctx']
     if c == 'current':
+      return self.cur_ctx(st)
+    if c.startswith('captured:'):
+      k = int(c.split(':')[1])
+      if len(st.captured) >= k:
+        self.stats['captured_ctx_reentered'] = self.stats.get('captured_ctx_reentered', 0) + 1
+        return st.captured[-k]
       return self.cur_ctx(st)
     if c.startswith('shared:'):
       return self.shared[int(c.split(':')[1]) % max(len(self.shared), 1)] if self.shared \
@@ -496,6 +519,9 @@ def expected_status(link, pexp, generated, H):
   if kind == 'unspec':
     return 'UNSPECIFIED'
   if kind == 'with':
+    for ent in H._st().pending[::-1]:
+      if ent[0] is link and len(ent) > 2:
+        return _status_name(ent[2])     # the status of the context object actually entered
     return link['status']
   if kind == 'to_graph':
     return 'ENABLED' if generated else None
